@@ -434,6 +434,190 @@ def const_int(e) -> int:
     return v
 
 
+# ---- seconds_to_duration -------------------------------------------------------------------
+
+def _is_name(e, name) -> bool:
+    return isinstance(e, ast.Name) and e.id == name
+
+
+def _nonzero_test(e, name) -> bool:
+    """`name != 0`, `0 != name`, or the bare truth value `name` (an int)"""
+    if _is_name(e, name):
+        return True
+    if isinstance(e, ast.Compare) and len(e.ops) == 1 and isinstance(e.ops[0], ast.NotEq):
+        a, b = e.left, e.comparators[0]
+        zero = lambda x: isinstance(x, ast.Constant) and type(x.value) is int and x.value == 0
+        return (_is_name(a, name) and zero(b)) or (zero(a) and _is_name(b, name))
+    return False
+
+
+def _zero_test(e, name) -> bool:
+    """`name == 0`, `0 == name`, `not name`"""
+    if isinstance(e, ast.UnaryOp) and isinstance(e.op, ast.Not):
+        return _is_name(e.operand, name)
+    if isinstance(e, ast.Compare) and len(e.ops) == 1 and isinstance(e.ops[0], ast.Eq):
+        a, b = e.left, e.comparators[0]
+        zero = lambda x: isinstance(x, ast.Constant) and type(x.value) is int and x.value == 0
+        return (_is_name(a, name) and zero(b)) or (zero(a) and _is_name(b, name))
+    return False
+
+
+def _single_target(st):
+    """(name, value) of `name = value` / `name: T = value`, else None"""
+    if isinstance(st, ast.Assign) and len(st.targets) == 1 and isinstance(st.targets[0], ast.Name):
+        return st.targets[0].id, st.value
+    if isinstance(st, ast.AnnAssign) and isinstance(st.target, ast.Name) and st.value is not None and st.simple:
+        return st.target.id, st.value
+    return None
+
+
+def _append_of(st, parts):
+    """the argument of the statement `parts.append(arg)`, else None"""
+    if isinstance(st, ast.Expr) and isinstance(st.value, ast.Call) and not st.value.keywords \
+            and len(st.value.args) == 1 and same(st.value.func, f"{parts}.append"):
+        return st.value.args[0]
+    return None
+
+
+def _pair_names(t):
+    if isinstance(t, ast.Tuple) and len(t.elts) == 2 and all(isinstance(x, ast.Name) for x in t.elts) \
+            and t.elts[0].id != t.elts[1].id:
+        return t.elts[0].id, t.elts[1].id
+    return None
+
+
+def _duration_step(stmts, secs, parts, u_sec, u_name) -> None:
+    """the per-unit step, in normal form:
+         value, secs = divmod(secs, u_sec)          (or  value = secs // u_sec ; secs = secs % u_sec / secs %= u_sec)
+         if value != 0: parts.append(f"{value}{u_name}")
+       Anything else is a TranslationError."""
+    what = "seconds_to_duration: per-unit step"
+    if not stmts:
+        raise TranslationError(f"{what}: empty")
+    st, rest = stmts[0], stmts[1:]
+    value = None
+    if isinstance(st, ast.Assign) and len(st.targets) == 1 and _pair_names(st.targets[0]) \
+            and same(st.value, f"divmod({secs}, {u_sec})"):
+        value, s2 = _pair_names(st.targets[0])
+        if s2 != secs:
+            raise TranslationError(f"{what}: the remainder is not carried in {secs}")
+    elif _single_target(st) and same(_single_target(st)[1], f"{secs} // {u_sec}") and rest:
+        value = _single_target(st)[0]
+        st2, rest = rest[0], rest[1:]
+        ok = (_single_target(st2) is not None and _single_target(st2)[0] == secs and isinstance(st2, ast.Assign)
+              and same(st2.value, f"{secs} % {u_sec}")) or same(st2, f"{secs} %= {u_sec}")
+        if not ok:
+            raise TranslationError(f"{what}: quotient not followed by the remainder: {ast.unparse(st2)}")
+    else:
+        raise TranslationError(f"{what}: expected divmod({secs}, {u_sec}), found {ast.unparse(st)}")
+    if value in (secs, parts, u_sec, u_name):
+        raise TranslationError(f"{what}: the count {value} shadows another local")
+    if len(rest) != 1 or not isinstance(rest[0], ast.If) or rest[0].orelse or len(rest[0].body) != 1 \
+            or not _nonzero_test(rest[0].test, value):
+        raise TranslationError(f"{what}: expected exactly `if {value} != 0: {parts}.append(...)` after the division")
+    arg = _append_of(rest[0].body[0], parts)
+    if arg is None or not any(same(arg, t) for t in (
+            'f"{%s}{%s}"' % (value, u_name), f"str({value}) + {u_name}", f'"%d%s" % ({value}, {u_name})',
+            f'"{{}}{{}}".format({value}, {u_name})')):
+        raise TranslationError(f"{what}: the appended part is not the count followed by the unit name")
+
+
+def duration_data(fn) -> Tuple[List[Tuple[int, str]], str]:
+    """NORMAL FORM of `seconds_to_duration`: (units, text written when no part was written).
+
+    Every statement of the function must be accounted for, in this order:
+      docstring? ; secs = int(float(<param>)) ; units = [ (n, "c"), ... ] or ( ... ) ; parts = []   (these three in any
+      order, optionally annotated) ; ONE loop that takes the units in order and applies the per-unit step
+      (`_duration_step`) to each, until the units are exhausted and optionally until secs == 0:
+          while secs != 0 and units:  a, b = units.pop(0) ; STEP          (either order of the conjuncts; `while units:`)
+          for a, b in units:  [if secs == 0: break] ; STEP                (no else clause)
+      -- both visit the same (unit, secs) states: once secs is 0 every further step divides 0 and appends nothing --
+      then `if not parts: parts.append("<text>")`? ; `return C7N_Rewriter.q("".join(parts))` (optionally wrapped in an
+      f-string with no other content).  Anything else is a TranslationError (= broken bridge)."""
+    what = "seconds_to_duration"
+    if len(fn.args.args) != 1 or fn.args.vararg or fn.args.kwarg or fn.args.kwonlyargs or fn.args.defaults:
+        raise TranslationError(f"{what}: expected exactly one parameter")
+    param = fn.args.args[0].arg
+    body = list(fn.body)
+    if body and isinstance(body[0], ast.Expr) and isinstance(body[0].value, ast.Constant) and isinstance(body[0].value.value, str):
+        body = body[1:]
+    secs = units = parts = None
+    unit_node = None
+    i = 0
+    while i < len(body) and _single_target(body[i]) is not None:
+        name, val = _single_target(body[i])
+        if name in (param, secs, units, parts):
+            raise TranslationError(f"{what}: {name} is bound twice")
+        if same(val, f"int(float({param}))") and secs is None:
+            secs = name
+        elif isinstance(val, (ast.List, ast.Tuple)) and val.elts and units is None:
+            units, unit_node = name, val
+        elif isinstance(val, ast.List) and not val.elts and parts is None:
+            parts = name
+        else:
+            raise TranslationError(f"{what}: unexpected assignment {ast.unparse(body[i])}")
+        i += 1
+    if secs is None or units is None or parts is None:
+        raise TranslationError(f"{what}: expected the truncated count, the unit table and the empty part list before the loop")
+    pairs: List[Tuple[int, str]] = []
+    for e in unit_node.elts:
+        if not (isinstance(e, ast.Tuple) and len(e.elts) == 2 and isinstance(e.elts[1], ast.Constant)
+                and isinstance(e.elts[1].value, str) and len(e.elts[1].value) == 1):
+            raise TranslationError(f"{what}: unit entry is not (seconds, one-letter name)")
+        pairs.append((const_int(e.elts[0]), e.elts[1].value))
+    if i >= len(body):
+        raise TranslationError(f"{what}: no loop over the units")
+    loop = body[i]
+    i += 1
+    if isinstance(loop, ast.While) and not loop.orelse:
+        if not isinstance(unit_node, ast.List):
+            raise TranslationError(f"{what}: a while loop consuming the units needs a list")
+        tests = loop.test.values if isinstance(loop.test, ast.BoolOp) and isinstance(loop.test.op, ast.And) else [loop.test]
+        n_units = sum(1 for t in tests if _is_name(t, units))
+        n_secs = sum(1 for t in tests if _nonzero_test(t, secs))
+        if n_units != 1 or n_units + n_secs != len(tests) or len(tests) > 2:
+            raise TranslationError(f"{what}: unexpected loop condition {ast.unparse(loop.test)}")
+        first = loop.body[0]
+        names = _pair_names(first.targets[0]) if isinstance(first, ast.Assign) and len(first.targets) == 1 else None
+        if names is None or not same(first.value, f"{units}.pop(0)"):
+            raise TranslationError(f"{what}: the loop does not take the first unit: {ast.unparse(first)}")
+        step = loop.body[1:]
+    elif isinstance(loop, ast.For) and not loop.orelse:
+        names = _pair_names(loop.target)
+        if names is None or not _is_name(loop.iter, units):
+            raise TranslationError(f"{what}: the loop does not run over the unit table")
+        step = loop.body
+        if step and isinstance(step[0], ast.If) and not step[0].orelse and len(step[0].body) == 1 \
+                and isinstance(step[0].body[0], ast.Break) and _zero_test(step[0].test, secs):
+            step = step[1:]
+    else:
+        raise TranslationError(f"{what}: expected a while or for loop over the units, found {ast.unparse(loop)[:60]}")
+    if len({param, secs, units, parts, names[0], names[1]}) != 6:
+        raise TranslationError(f"{what}: loop variables shadow other locals")
+    _duration_step(step, secs, parts, names[0], names[1])
+    ztext = ""
+    if i < len(body) and isinstance(body[i], ast.If):
+        st = body[i]
+        empty = _zero_test(st.test, parts) and isinstance(st.test, ast.UnaryOp) or same(st.test, f"len({parts}) == 0") \
+            or same(st.test, f"{parts} == []")
+        arg = _append_of(st.body[0], parts) if len(st.body) == 1 and not st.orelse else None
+        if not empty or not (isinstance(arg, ast.Constant) and isinstance(arg.value, str)):
+            raise TranslationError(f"{what}: unexpected statement after the loop: {ast.unparse(st)[:80]}")
+        ztext = arg.value
+        i += 1
+    if i != len(body) - 1 or not isinstance(body[i], ast.Return) or body[i].value is None:
+        raise TranslationError(f"{what}: expected the return right after the loop / the empty case")
+    rv = body[i].value
+    if isinstance(rv, ast.JoinedStr) and len(rv.values) == 1 and isinstance(rv.values[0], ast.FormattedValue) \
+            and rv.values[0].conversion == -1 and rv.values[0].format_spec is None:
+        rv = rv.values[0].value          # f"{x}" of a str is x
+    if not (isinstance(rv, ast.Call) and ast.unparse(rv.func) == "C7N_Rewriter.q" and not rv.keywords and len(rv.args) == 1
+            and same(rv.args[0], f"''.join({parts})")):
+        raise TranslationError(f"{what}: the result is not C7N_Rewriter.q(''.join({parts}))")
+    return pairs, ztext
+
+
+
 def gen_xlate_tables() -> str:
     m = parse(SRC)
     cls = find_class(m, "C7N_Rewriter")
@@ -461,29 +645,11 @@ def gen_xlate_tables() -> str:
         f = find_func(cls.body, fn)
         out.append(f"/-- `{var}` of `{fn}` -/")
         out.append(f"def {lname} : List (String × List Char) := " + lean_pairs_chars(str_dict(_assign_value(f.body, var), f"{fn}.{var}")))
-    # units of seconds_to_duration
-    sd = find_func(cls.body, "seconds_to_duration")
-    cands = [st.value for st in sd.body if isinstance(st, ast.Assign) and isinstance(st.value, ast.List)
-             and st.value.elts and all(isinstance(e, ast.Tuple) for e in st.value.elts)]
-    if len(cands) != 1:
-        raise TranslationError("seconds_to_duration: expected one list of (seconds, name) pairs")
-    units = cands[0]
-    us = []
-    for e in units.elts:
-        if not (isinstance(e, ast.Tuple) and len(e.elts) == 2 and isinstance(e.elts[1], ast.Constant)
-                and isinstance(e.elts[1].value, str) and len(e.elts[1].value) == 1):
-            raise TranslationError("seconds_to_duration: unit entry is not (seconds, one-letter name)")
-        us.append(f"({const_int(e.elts[0])}, {lean_char(e.elts[1].value)})")
+    # units of seconds_to_duration (the whole body is normalised: see duration_data)
+    unit_pairs, ztext = duration_data(find_func(cls.body, "seconds_to_duration"))
+    us = [f"({n}, {lean_char(c)})" for n, c in unit_pairs]
     out.append("/-- `units` of `seconds_to_duration` -/")
     out.append("def durationUnits : List (Nat × Char) := " + lean_list(us))
-    ztext = ""
-    for st in ast.walk(sd):
-        if isinstance(st, ast.If) and isinstance(st.test, ast.UnaryOp) and isinstance(st.test.op, ast.Not) \
-                and isinstance(st.test.operand, ast.Name) and len(st.body) == 1 and isinstance(st.body[0], ast.Expr):
-            call = st.body[0].value
-            if isinstance(call, ast.Call) and same(call.func, f"{st.test.operand.id}.append") and len(call.args) == 1 \
-                    and isinstance(call.args[0], ast.Constant) and isinstance(call.args[0].value, str):
-                ztext = call.args[0].value
     out.append("/-- what `seconds_to_duration` writes when no unit has a non-zero count (\"\" if it has no such case) -/")
     out.append(f"def zeroDuration : String := {lean_str(ztext)}")
     ad = find_func(cls.body, "age_to_duration")
